@@ -116,12 +116,15 @@ class StringSerializableRegistry:
         while flag:
             flag = False
             filtered: Set[T_StringSerializable] = set()
+            replaced: Set[T_StringSerializable] = set()
             for t1, t2 in permutations(types, 2):
                 if (t1, t2) in self.replaces:
                     filtered.add(t2)
+                    replaced.add(t1)
                     flag = True
             if flag:
-                types = filtered
+                # Types that take no part in any replacement must be kept
+                types = filtered | (types - replaced)
         # noinspection PyUnboundLocalVariable
         return types
 
